@@ -195,12 +195,18 @@ def known(case, v):
 COLS = ["chromosome", "start", "end", "gene", "log2", "probes", "weight", "cn", "depth", "ci_lo", "ci_hi", "sem", "cn1", "cn2", "baf"]
 
 
+_CUR = {"spec": None}  # row-label variant of the case being checked (set by check_case)
+
+
 def _arr(rows, drop=()):
     import pandas as pd
     from cnvlib.cnary import CopyNumArray
 
     cols = [c for c in COLS if c in rows[0] and c not in drop]
     df = pd.DataFrame({c: [(float("nan") if r[c] is None else r[c]) for r in rows] for c in cols})
+    from vk import gen
+
+    gen.relabel(df, _CUR["spec"])
     return CopyNumArray(df, {"sample_id": "s"})
 
 
@@ -224,6 +230,9 @@ def _compare(res, exp, bad, clause, ctx):
 
 
 def check_case(case):
+    from vk import gen as _gen
+
+    _CUR["spec"] = _gen.spec_for(case)
     from cnvlib import call, segfilters
 
     out = []
